@@ -19,6 +19,7 @@
 #include <util/check.h>
 #include <util/log.h>
 #include <util/overflow.h>
+#include <util/verif_hooks.h>
 
 #include <cassert>
 #include <cstdint>
@@ -693,6 +694,7 @@ private:
 
         auto& input{m_inputs[i]};
         input.coin = base->PeekCoin(input.outpoint);
+        VERIF_POINT("overlay.worker_fetched");
         // Use release so writing coin above happens before the main thread acquires.
         Assert(!input.ready.test_and_set(std::memory_order_release));
         input.ready.notify_one();
@@ -711,6 +713,7 @@ private:
         }
         // Skip fetching the rest of the inputs by moving the head to the end.
         m_input_head.store(m_inputs.size(), std::memory_order_relaxed);
+        VERIF_POINT("overlay.stop_before_wait");
         // Wait for all threads to stop.
         for (auto& future : m_futures) future.wait();
         m_futures.clear();
@@ -726,6 +729,7 @@ private:
         if (m_input_tail < m_inputs.size() && m_inputs[m_input_tail].outpoint == outpoint) {
             // We advance the tail since the input is cached and not accessed through this method again.
             auto& input{m_inputs[m_input_tail++]};
+            VERIF_POINT("overlay.main_before_wait");
             // Wait until the coin is ready to be read. We need acquire so we match the worker thread's release.
             input.ready.wait(/*old=*/false, std::memory_order_acquire);
             // We can move the coin since we won't access this input again.
